@@ -71,7 +71,7 @@ def main(tier):
         else:
             ln = open(f).readlines()[r["rejected_line"] - 1].strip() if r["rejected_line"] else str(r["errors"][:2])
             ck.violation("equil:" + ln[:200], "record differs from SluEquil!Expected: " + ln[:900], {"records": f})
-    apicheck.run_histories(ck, ["mat", "vals", "gssvx", "destroy", "equil", "trans"], 3, 60 if quick else 600, rng, precs=("d", "s", "z", "c"),
+    apicheck.run_histories(ck, ["mat", "vals", "gssvx", "destroy", "equil", "trans"], 3, 120 if quick else 1200, rng, precs=("d", "s", "z", "c"),
                            threads=(1, 2), nmax=20, validate_pipe=False,
                            hist_filter=lambda h: any(c["call"] == "gssvx" and c["fact"] == "EQUILIBRATE" for c in h))
     return ck.finish()
